@@ -163,7 +163,13 @@ func (e *Enc) fprint(cur *cursor, v ssa.Value, full string, callee *ssa.Function
 			text = fmt.Sprintf("(fmt_f1 %s %s)", fmtS, elems[0])
 		}
 	case known && len(elems) == 0 && isF:
-		text = fmtS
+		// Fprintf(w, f) with no operands prints f verbatim only if f contains no '%' verbs
+		if lit, ok := c.Args[ai].(*ssa.Const); ok && lit.Value != nil && !strings.Contains(lit.Value.ExactString(), "%") {
+			text = fmtS
+		} else {
+			e.declFun("fmt_f0", []string{"Str"}, "Str")
+			text = fmt.Sprintf("(fmt_f0 %s)", fmtS)
+		}
 	default:
 		text = e.fresh("printed", "Str")
 	}
